@@ -1,0 +1,64 @@
+//go:build verif
+
+package elliptic
+
+import (
+	"sort"
+
+	"github.com/edutko/decipher/internal/asn1struct"
+	"github.com/edutko/decipher/internal/names"
+)
+
+// Verification hooks (see /verif, property C16). Not compiled without the "verif" build tag.
+
+// VerifCurve is one entry of namedPrimeCurves as the running code holds it.
+type VerifCurve struct {
+	Key     string // the map key: the field prime in decimal
+	Name    string
+	Display string // names.Curve(Name): what CurveNameFromParameters returns on a match
+	Order   string // decimal
+	A       []byte
+	B       []byte
+	BaseX   []byte
+	BaseY   []byte
+	Seed    []byte
+	// len and cap of the backing slices A, B, BaseX, BaseY, Seed, in this order
+	LenCap [5][2]int
+	// the bytes between len and cap of BaseX (where append(a.BaseX, a.BaseY...) writes)
+	BaseXSpare []byte
+}
+
+// VerifCurveTable returns the curve table sorted by name (map order is not deterministic).
+func VerifCurveTable() []VerifCurve {
+	var out []VerifCurve
+	for k, c := range namedPrimeCurves {
+		v := VerifCurve{
+			Key:     k,
+			Name:    c.Name,
+			Display: names.Curve(c.Name),
+			Order:   c.Order.String(),
+			A:       append([]byte{}, c.A...),
+			B:       append([]byte{}, c.B...),
+			BaseX:   append([]byte{}, c.BaseX...),
+			BaseY:   append([]byte{}, c.BaseY...),
+			Seed:    append([]byte{}, c.Seed...),
+		}
+		for i, s := range [][]byte{c.A, c.B, c.BaseX, c.BaseY, c.Seed} {
+			v.LenCap[i] = [2]int{len(s), cap(s)}
+		}
+		v.BaseXSpare = append([]byte{}, c.BaseX[len(c.BaseX):cap(c.BaseX)]...)
+		out = append(out, v)
+	}
+	sort.Slice(out, func(i, j int) bool { return out[i].Name < out[j].Name })
+	return out
+}
+
+// VerifPrimeFieldParamsMatch runs primeFieldParamsMatch against the table entry stored
+// under key; found reports whether the key exists.
+func VerifPrimeFieldParamsMatch(key string, p asn1struct.ECParameters) (found bool, match bool) {
+	c, ok := namedPrimeCurves[key]
+	if !ok {
+		return false, false
+	}
+	return true, primeFieldParamsMatch(c, p)
+}
